@@ -231,3 +231,30 @@ fn c06_slot_reported_for_constant_key_histories_and_open_ended_paths() {
     }
     run_cases("c06_histories", cases);
 }
+
+/// however the path ends — STOP, RETURN, REVERT, INVALID, SELFDESTRUCT, an unassigned byte, running off the end of the code,
+/// a tolerated bad JUMP — the literal-key accesses made before the end are reported (write, read whose result is dropped, read
+/// whose result is used as the beneficiary / return data)
+#[test]
+fn c06_slot_reported_whatever_ends_the_path() {
+    let endings: Vec<(&str, Vec<u8>)> = vec![
+        ("STOP", vec![0x00]), ("RETURN", vec![0x60, 0x00, 0x60, 0x00, 0xf3]), ("REVERT", vec![0x60, 0x00, 0x60, 0x00, 0xfd]), ("INVALID", vec![0xfe]),
+        ("SELFDESTRUCT", vec![0x33, 0xff]), ("unassigned 0x0c", vec![0x0c]), ("end of code", vec![]), ("bad JUMP", vec![0x60, 0x01, 0x56]),
+    ];
+    let mut cases = vec![];
+    for k in literal_keys(0) {
+        for (name, e) in &endings {
+            let mut c = vec![0x33]; p32(&mut c, k); c.push(0x55); c.extend(e);
+            cases.push(Case { ob: "slots.path_ending", what: format!("sstore({k:#x}, caller); {name}"), code: c, must: vec![k] });
+            let mut c = vec![]; p32(&mut c, k); c.extend([0x54, 0x50]); c.extend(e);
+            cases.push(Case { ob: "slots.path_ending", what: format!("sload({k:#x}) dropped; {name}"), code: c, must: vec![k] });
+            // a branch that writes k and ends this way, while the other arm only stops
+            let mut c = vec![0x36, 0x60, 0x05, 0x57, 0x00, 0x5b, 0x60, 0x01]; p32(&mut c, k); c.push(0x55); c.extend(e);
+            cases.push(Case { ob: "slots.path_ending", what: format!("if calldatasize {{ sstore({k:#x}, 1); {name} }}"), code: c, must: vec![k] });
+        }
+        // the loaded word is the SELFDESTRUCT beneficiary
+        let mut c = vec![]; p32(&mut c, k); c.extend([0x54, 0xff]);
+        cases.push(Case { ob: "slots.path_ending", what: format!("selfdestruct(sload({k:#x}))"), code: c, must: vec![k] });
+    }
+    run_cases("c06_path_endings", cases);
+}
